@@ -186,6 +186,26 @@ def run(ctx):
     for case, res, real, model in pipe.run_cases(ctx, cases):
         ctx.count("directed-net-indel")
         oracle(ctx, case, res, real)
+    # the info file of a run with worker processes and several chunks per worker (many reads with a match early in the file, few later: the text a
+    # worker produces for a chunk shrinks from chunk to chunk): still one row group per read, in input order, each reconstructing its read
+    for _ in range(ctx.scale(3, 20)):
+        ad = pipe.rs(rng, 12)
+        n = rng.randint(120, 200)
+        reads = []
+        for i in range(n):
+            body = pipe.rs(rng, rng.randint(20, 40), "AC" if ad[0] in "GT" else "GT")
+            s_ = body + ad + pipe.rs(rng, rng.randint(0, 6)) if rng.random() < (1.0 - i / n) else body
+            reads.append((f"r{i}", s_, "I" * len(s_)))
+        size = sum(len(n_) + 2 * len(s_) + 6 for n_, s_, _ in reads)
+        case = dict(argv=["--no-index", "-a", "a0=" + ad, "--info-file", "{dir}/info.txt", "-o", "{dir}/o1.fastq"], paired=False, reads1=reads, reads2=None,
+                    with_qual=True, interleaved_in=False, cores=2, buffer_size=max(400, size // rng.randint(5, 9)))
+        res, real = pipe.run_real(case)
+        ctx.evaluations += 1
+        ctx.count("multicore-info-file")
+        before = len(ctx.failures)
+        oracle(ctx, case, res, real)
+        for f in ctx.failures[before:]:
+            f.input = dict(f.input, cores=2, buffer_size=case["buffer_size"])
 
 
 def extended_search(ctx):
